@@ -4,13 +4,17 @@ usage: scn_extract.py <tlc.out> <pred.jsonl> [--every K --offset O] [--min-event
 import sys, json, re
 def main():
     src, dst = sys.argv[1], sys.argv[2]
-    every, off, minev = 1, 0, 0
+    every, off, minev, target = 1, 0, 0, 0
     a = sys.argv[3:]
     while a:
         if a[0] == '--every': every = int(a[1]); a = a[2:]
         elif a[0] == '--offset': off = int(a[1]); a = a[2:]
         elif a[0] == '--min-events': minev = int(a[1]); a = a[2:]
+        elif a[0] == '--target': target = int(a[1]); a = a[2:]
         else: raise SystemExit('bad arg ' + a[0])
+    if target:
+        total = sum(1 for line in open(src, errors='replace') if line.startswith('<<"SCN", "'))
+        every = max(1, total // target)
     n = kept = bad = 0
     buf = None
     with open(src, errors='replace') as f, open(dst, 'w') as out:
